@@ -30,6 +30,9 @@
 #ifndef LRU_K
 #define LRU_K 3            /* longest key, bytes */
 #endif
+#ifndef LRU_LEN
+#define LRU_LEN 4          /* buckets in the pre-state (concrete per unit) */
+#endif
 #define LRU_M (LRU_N + 2)  /* handles the harness tracks: pre-state + one detached + one inserted */
 
 /* ------------------------------------------------------------------ ghost */
@@ -121,7 +124,11 @@ static lru_handle_t *mk_handle(size_t kmax) {
   size_t kl = nondet_size(), j;
   lru_handle_t *h;
   __CPROVER_assume(kl <= kmax);
-  h = malloc(sizeof(lru_handle_t) - 1 + kl);      /* exactly what lru_shard_insert allocates */
+#ifdef LRU_EXACT
+  h = malloc(sizeof(lru_handle_t) - 1 + kl);      /* exactly what lru_shard_insert allocates: reads past the key are flagged */
+#else
+  h = malloc(sizeof(lru_handle_t) - 1 + LRU_K);   /* constant size (cheaper); key_length <= LRU_K is symbolic */
+#endif
   __CPROVER_assume(h != NULL);
   h->key_length = kl; h->hash = nondet_u32(); h->charge = nondet_size();
   h->next_hash = NULL; h->next = NULL; h->prev = NULL; h->in_cache = 0; h->refs = 0; h->value = NULL; h->deleter = model_deleter;
@@ -139,7 +146,7 @@ static void snap(int i) {
 static void mk_table(lru_table_t *t, uint32_t len) {
   uint32_t b;
   t->length = len; t->elems = 0;
-  t->list = malloc(len * sizeof(lru_handle_t *));
+  t->list = malloc((len ? len : 1) * sizeof(lru_handle_t *));
   __CPROVER_assume(t->list != NULL);
   for (b = 0; b < 8; b++) if (b < len) t->list[b] = NULL;
 }
@@ -156,25 +163,37 @@ static int same_key(const lru_handle_t *a, const lru_handle_t *b) {
   return key_is(a, b->hash, b->key_data, b->key_length);
 }
 
-/* walkers (bounded: LRU_M + 1 steps per chain, 8 buckets) */
-static int tbl_count(const lru_table_t *t, const lru_handle_t *p, uint32_t *bucket) {   /* -1: malformed chain */
-  uint32_t b; int cnt = 0, s;
+/* walkers over the post-state (bounded: LRU_M + 1 steps per chain, 8 buckets).  Every node must be a handle the
+ * harness knows and that has not been freed (else: malformed, -1), so the walkers never follow a wild pointer;
+ * CBMC's pointer checks are switched off inside them (spec code only, the real code keeps every check). */
+static int idx_of(const lru_handle_t *p);
+#pragma CPROVER check push
+#pragma CPROVER check disable "pointer"
+#pragma CPROVER check disable "pointer-primitive"
+#pragma CPROVER check disable "pointer-overflow"
+#pragma CPROVER check disable "bounds"
+/* one pass over the whole table: T.cnt[i] = how often handle i is chained, T.bkt[i] = its (last) bucket,
+ * T.pos[i] = its position in that chain, T.total = number of chained nodes, T.bad = malformed */
+static struct tbl_scan { int cnt[LRU_M]; uint32_t bkt[LRU_M]; int pos[LRU_M]; int total; int bad; } T;
+static void tbl_scan(const lru_table_t *t) {
+  uint32_t b; int s, i;
+  for (i = 0; i < LRU_M; i++) { T.cnt[i] = 0; T.bkt[i] = 99; T.pos[i] = -1; }
+  T.total = 0; T.bad = 0;
+  if (t->length > 8 || t->list == NULL) { T.bad = 1; return; }
   for (b = 0; b < 8; b++) if (b < t->length) {
     const lru_handle_t *q = t->list[b];
-    for (s = 0; s < LRU_M + 1 && q != NULL; s++) { if (q == p) { cnt++; *bucket = b; } q = q->next_hash; }
-    if (q != NULL) return -1;
+    for (s = 0; s < LRU_M; s++) if (q != NULL && !T.bad) {
+      i = idx_of(q);
+      if (i < 0 || was_freed(q)) T.bad = 1;
+      else { T.cnt[i]++; T.bkt[i] = b; T.pos[i] = s; T.total++; q = q->next_hash; }
+    }
+    if (q != NULL) T.bad = 1;
   }
-  return cnt;
 }
-static int tbl_total(const lru_table_t *t) {
-  uint32_t b; int cnt = 0, s;
-  for (b = 0; b < 8; b++) if (b < t->length) {
-    const lru_handle_t *q = t->list[b];
-    for (s = 0; s < LRU_M + 1 && q != NULL; s++) { cnt++; q = q->next_hash; }
-    if (q != NULL) return -1;
-  }
-  return cnt;
-}
+/* handle i is chained exactly once, in the bucket of its hash */
+static int tbl_has(const lru_table_t *t, int i) { return !T.bad && T.cnt[i] == 1 && T.bkt[i] == (S[i].hash & (t->length - 1)); }
+static int tbl_hasnt(int i) { return !T.bad && T.cnt[i] == 0; }
+#pragma CPROVER check pop
 static int idx_of(const lru_handle_t *p) {
   int i, r = -1;
   for (i = 0; i < LRU_M; i++) if (G[i] != NULL && G[i] == p) r = i;
@@ -200,10 +219,26 @@ static void build_table(lru_table_t *t, uint32_t len, int n, size_t kmax, int di
 }
 
 static uint8_t *mk_key(size_t n, size_t kmax) {
+#ifdef LRU_EXACT
   uint8_t *kd = malloc(n); size_t j;
+#else
+  uint8_t *kd = malloc(LRU_K + 1); size_t j;
+#endif
   __CPROVER_assume(kd != NULL);
   for (j = 0; j < kmax; j++) if (j < n) kd[j] = nondet_u8();
   return kd;
+}
+
+/* number of handles in the pre-state: symbolic 0..LRU_N, or fixed per unit variant (keeps elems, and with it the
+ * size of the bucket array a resize allocates, concrete) */
+static int pick_n(void) {
+#ifdef LRU_NFIX
+  return LRU_NFIX;
+#else
+  int n = nondet_int();
+  __CPROVER_assume(n >= 0 && n <= LRU_N);
+  return n;
+#endif
 }
 
 /* =============================================================== lru.equal */
@@ -229,12 +264,10 @@ void h_equal(void) {
 /* ================================================================ lru.find */
 void h_find(void) {
   lru_table_t t; ldb_slice_t key; uint8_t *kd; lru_handle_t **ptr, *res; int i, slot_ok, ri;
-  IN_U32(in_len); IN_INT(in_n); IN_SIZE(in_klen); IN_U32(in_hash); IN_INT(in_k);
-  ASSUME(in_len == 4 || in_len == 8);
-  ASSUME(in_n >= 0 && in_n <= LRU_N);
-  ASSUME(in_klen <= 4);
-  build_table(&t, in_len, in_n, 4, 0);            /* duplicates allowed: find returns the first */
-  kd = mk_key(in_klen, 4);
+  const uint32_t in_len = LRU_LEN; int in_n = pick_n(); IN_SIZE(in_klen); IN_U32(in_hash); IN_INT(in_k);
+  ASSUME(in_klen <= LRU_K);
+  build_table(&t, in_len, in_n, LRU_K, 0);        /* duplicates allowed: find returns the first */
+  kd = mk_key(in_klen, LRU_K);
   key.data = kd; key.size = in_klen; key.alloc = 0;
 
   ptr = lru_table_find(&t, &key, in_hash);
@@ -254,16 +287,15 @@ void h_find(void) {
   ASSUME(in_k >= 0 && in_k < in_n);
   CHECK(!key_is(G[in_k], in_hash, kd, in_klen) || res != NULL, "lru_table_find: NULL only if no handle in the table has this hash and key");
   CHECK(!key_is(G[in_k], in_hash, kd, in_klen) || ri >= in_k, "lru_table_find: returns the FIRST matching handle of the chain");
-  CHECK(t.elems == (uint32_t)in_n && t.length == in_len && tbl_total(&t) == in_n, "lru_table_find: does not modify the table");
+  tbl_scan(&t);
+  CHECK(t.elems == (uint32_t)in_n && t.length == in_len && T.total == in_n && tbl_has(&t, in_k), "lru_table_find: does not modify the table");
   CANARY();
 }
 
 /* ========================================================== lru.tbl_lookup */
 void h_tbl_lookup(void) {
   lru_table_t t; ldb_slice_t key; uint8_t *kd; lru_handle_t *res; int ri;
-  IN_U32(in_len); IN_INT(in_n); IN_SIZE(in_klen); IN_U32(in_hash); IN_INT(in_k);
-  ASSUME(in_len == 4 || in_len == 8);
-  ASSUME(in_n >= 0 && in_n <= LRU_N);
+  const uint32_t in_len = LRU_LEN; int in_n = pick_n(); IN_SIZE(in_klen); IN_U32(in_hash); IN_INT(in_k);
   ASSUME(in_klen <= LRU_K);
   build_table(&t, in_len, in_n, LRU_K, 1);        /* table invariant: keys pairwise distinct */
   kd = mk_key(in_klen, LRU_K);
@@ -276,21 +308,21 @@ void h_tbl_lookup(void) {
   CHECK(res == NULL || key_is(res, in_hash, kd, in_klen), "lru_table_lookup: a returned handle is stored under EXACTLY the key (hash, length, bytes) asked for");
   ASSUME(in_k >= 0 && in_k < in_n);
   CHECK(!key_is(G[in_k], in_hash, kd, in_klen) || res == G[in_k], "lru_table_lookup: every key present in the table is found");
-  CHECK(t.elems == (uint32_t)in_n && t.length == in_len && tbl_total(&t) == in_n, "lru_table_lookup: does not modify the table");
+  tbl_scan(&t);
+  CHECK(t.elems == (uint32_t)in_n && t.length == in_len && T.total == in_n && tbl_has(&t, in_k), "lru_table_lookup: does not modify the table");
   CANARY();
 }
 
 /* ========================================================== lru.tbl_insert */
 void h_tbl_insert(void) {
-  lru_table_t t; lru_handle_t *h, *old, **old_list; int oi, c, i, any = 0; uint32_t b = 99, want_len;
-  IN_U32(in_len); IN_INT(in_n); IN_INT(in_k);
-  ASSUME(in_len == 2 || in_len == 4);              /* 2: smaller than the code ever makes it, to reach the resize with few handles */
-  ASSUME(in_n >= 0 && in_n <= LRU_N && (uint32_t)in_n <= in_len);
+  lru_table_t t; lru_handle_t *h, *old, **old_list; int oi, i, any = 0; uint32_t want_len;
+  const uint32_t in_len = LRU_LEN; int in_n = pick_n(); IN_INT(in_k);
+  ASSUME((uint32_t)in_n <= in_len);                /* table invariant: elems <= length */
   build_table(&t, in_len, in_n, LRU_K, 1);
   old_list = t.list;
   h = mk_handle(LRU_K);
   h->next = NULL;                                  /* lru_handle_key's (compiled out) assert reads it */
-  G[LRU_N] = h;
+  G[LRU_N] = h; snap(LRU_N);
   for (i = 0; i < LRU_N; i++) if (i < in_n && same_key(G[i], h)) any = 1;
 
   old = lru_table_insert(&t, h);
@@ -300,17 +332,17 @@ void h_tbl_insert(void) {
   CHECK(old == NULL || same_key(old, h), "lru_table_insert: the returned old handle has exactly the new handle's key");
   CHECK(any == (old != NULL), "lru_table_insert: an existing handle with the same key is always found and returned");
   CHECK(t.elems == (uint32_t)in_n + (old == NULL ? 1u : 0u), "lru_table_insert: elems grows by one exactly when no handle was replaced");
-  CHECK(tbl_total(&t) == (int)t.elems, "lru_table_insert: elems equals the number of chained handles");
-  c = tbl_count(&t, h, &b);
-  CHECK(c == 1 && b == (h->hash & (t.length - 1)), "lru_table_insert: the new handle is chained exactly once, in bucket hash & (length-1)");
-  b = 99;
-  CHECK(old == NULL || tbl_count(&t, old, &b) == 0, "lru_table_insert: the replaced handle is no longer chained");
-  ASSUME(in_k >= 0 && in_k < in_n);
-  b = 99; c = tbl_count(&t, G[in_k], &b);
-  CHECK(G[in_k] == old || (c == 1 && b == (S[in_k].hash & (t.length - 1))), "lru_table_insert: every other handle stays chained exactly once in its bucket");
+  tbl_scan(&t);
+  CHECK(!T.bad && T.total == (int)t.elems, "lru_table_insert: chains well formed, elems equals the number of chained handles");
+  CHECK(tbl_has(&t, LRU_N), "lru_table_insert: the new handle is chained exactly once, in bucket hash & (length-1)");
+  CHECK(old == NULL || tbl_hasnt(oi), "lru_table_insert: the replaced handle is no longer chained");
+  if (in_n > 0) {
+    ASSUME(in_k >= 0 && in_k < in_n);
+    CHECK(G[in_k] == old || tbl_has(&t, in_k), "lru_table_insert: every other handle stays chained exactly once in its bucket");
+  }
   /* resize policy: average chain length <= 1 */
   want_len = in_len;
-  if (old == NULL && (uint32_t)in_n + 1 > in_len) want_len = 4;
+  if (old == NULL && (uint32_t)in_n + 1 > in_len) { want_len = 4; while (want_len < (uint32_t)in_n + 1) want_len *= 2; }
   CHECK(t.length == want_len && t.elems <= t.length, "lru_table_insert: the table is resized exactly when elems exceeds length");
   CHECK((t.length == in_len) == (t.list == old_list), "lru_table_insert: bucket array replaced only by a resize");
   CHECK(X.frees == (t.list != old_list ? 1 : 0) && (X.frees == 0 || X.freed[0] == (void *)old_list), "lru_table_insert: frees only the old bucket array, never a handle");
@@ -319,10 +351,8 @@ void h_tbl_insert(void) {
 
 /* ========================================================== lru.tbl_remove */
 void h_tbl_remove(void) {
-  lru_table_t t; ldb_slice_t key; uint8_t *kd; lru_handle_t *res, **old_list; int ri, c; uint32_t b = 99;
-  IN_U32(in_len); IN_INT(in_n); IN_SIZE(in_klen); IN_U32(in_hash); IN_INT(in_k);
-  ASSUME(in_len == 4 || in_len == 8);
-  ASSUME(in_n >= 0 && in_n <= LRU_N);
+  lru_table_t t; ldb_slice_t key; uint8_t *kd; lru_handle_t *res, **old_list; int ri;
+  const uint32_t in_len = LRU_LEN; int in_n = pick_n(); IN_SIZE(in_klen); IN_U32(in_hash); IN_INT(in_k);
   ASSUME(in_klen <= LRU_K);
   build_table(&t, in_len, in_n, LRU_K, 1);
   old_list = t.list;
@@ -334,28 +364,27 @@ void h_tbl_remove(void) {
   ri = idx_of(res);
   CHECK(res == NULL || (ri >= 0 && ri < in_n), "lru_table_remove: NULL or a handle of the table");
   CHECK(res == NULL || key_is(res, in_hash, kd, in_klen), "lru_table_remove: removes only a handle with exactly the key asked for");
-  CHECK(t.elems == (uint32_t)in_n - (res != NULL ? 1u : 0u) && tbl_total(&t) == (int)t.elems, "lru_table_remove: elems shrinks by one exactly when a handle was removed, and equals the number of chained handles");
-  CHECK(res == NULL || tbl_count(&t, res, &b) == 0, "lru_table_remove: the removed handle is no longer chained");
+  tbl_scan(&t);
+  CHECK(t.elems == (uint32_t)in_n - (res != NULL ? 1u : 0u) && !T.bad && T.total == (int)t.elems, "lru_table_remove: elems shrinks by one exactly when a handle was removed, and equals the number of chained handles");
+  CHECK(res == NULL || tbl_hasnt(ri), "lru_table_remove: the removed handle is no longer chained");
   ASSUME(in_k >= 0 && in_k < in_n);
   CHECK(!key_is(G[in_k], in_hash, kd, in_klen) || res == G[in_k], "lru_table_remove: a present key is always removed");
-  b = 99; c = tbl_count(&t, G[in_k], &b);
-  CHECK(G[in_k] == res || (c == 1 && b == (S[in_k].hash & (in_len - 1))), "lru_table_remove: every other handle stays chained exactly once in its bucket");
+  CHECK(G[in_k] == res || tbl_has(&t, in_k), "lru_table_remove: every other handle stays chained exactly once in its bucket");
   CHECK(t.length == in_len && t.list == old_list && X.frees == 0, "lru_table_remove: bucket array kept, nothing freed");
   CANARY();
 }
 
 /* ========================================================== lru.tbl_resize */
 void h_tbl_resize(void) {
-  lru_table_t t; lru_handle_t **old_list; int c, i; uint32_t b = 99, want = 4;
-  IN_U32(in_len); IN_INT(in_n); IN_INT(in_k);
-  ASSUME(in_len == 0 || in_len == 1 || in_len == 2 || in_len == 4);       /* 0: lru_table_init (list == NULL) */
-  ASSUME(in_n >= 0 && in_n <= LRU_N && (in_len != 0 || in_n == 0));
-  if (in_len == 0) {
+  lru_table_t t; lru_handle_t **old_list; int i; uint32_t want = 4;
+  const uint32_t in_len = LRU_LEN; int in_n = pick_n(); IN_INT(in_k);
+  if (in_len == 0) {                               /* lru_table_init: no bucket array yet */
+    ASSUME(in_n == 0);
     ghost_reset();
     for (i = 0; i < LRU_M; i++) G[i] = NULL;
     t.length = 0; t.elems = 0; t.list = NULL; g_n = 0;
   } else {
-    build_table(&t, in_len, in_n, 1, 1);
+    build_table(&t, in_len, in_n, 0, 0);           /* keys play no role in a resize: empty keys, hashes symbolic */
   }
   old_list = t.list;
 
@@ -364,11 +393,11 @@ void h_tbl_resize(void) {
   while (want < (uint32_t)in_n) want *= 2;
   CHECK(t.length == want && is_pow2(t.length) && t.length >= 4 && t.length >= t.elems, "lru_table_resize: new length = smallest power of two >= max(4, elems)");
   CHECK(t.elems == (uint32_t)in_n, "lru_table_resize: elems unchanged");
-  CHECK(tbl_total(&t) == in_n, "lru_table_resize: no handle lost, none duplicated");
+  tbl_scan(&t);
+  CHECK(!T.bad && T.total == in_n, "lru_table_resize: no handle lost, none duplicated");
   if (in_n > 0) {
     ASSUME(in_k >= 0 && in_k < in_n);
-    c = tbl_count(&t, G[in_k], &b);
-    CHECK(c == 1 && b == (S[in_k].hash & (t.length - 1)), "lru_table_resize: every handle lands exactly once in bucket hash & (new_length-1)");
+    CHECK(tbl_has(&t, in_k), "lru_table_resize: every handle lands exactly once in bucket hash & (new_length-1)");
   }
   CHECK(X.mallocs == 1 && t.list == (lru_handle_t **)X.last_malloc && X.last_malloc_n == (size_t)t.length * sizeof(lru_handle_t *), "lru_table_resize: bucket array of new_length pointers");
   CHECK(X.frees == (old_list != NULL ? 1 : 0) && (old_list == NULL || X.freed[0] == (void *)old_list), "lru_table_resize: the old bucket array is freed exactly once, no handle is freed");
